@@ -649,7 +649,7 @@ is one whose closing the tracker sees (`closes_of_open_nonvalve`: an open tracke
 `_internal_status` closes; the due backtracks are non-negative.  Then the head saved by this step is above
 `min_head + q/A` — less than one second of flow below the minimum. -/
 theorem step_limit_min (cfg : Cfg) (s : St) (r : TankRun.Row) (hrow : (step cfg s).rows = r :: s.rows)
-    (hfirst : s.first = false) (i j k : Nat) (t : Tank) (rc : TankRun.RCtl)
+    (hfirst : s.first = false) (hnr : cfg.rules = []) (i j k : Nat) (t : Tank) (rc : TankRun.RCtl)
     (ht : cfg.tanks[i]? = some t) (hcyl : t.curve = none) (hpi : 0 < cfg.pi) (hd : t.diam ≠ 0)
     (hrc : cfg.ctls[j]? = some rc) (hpre : rc.pre = true)
     (hcond : rc.cond = TankRun.Cond.level i ⟨.head, .le, t.minLevel + t.elev⟩) (hact : rc.ctl.act = ⟨k, .internal, 0⟩)
@@ -687,7 +687,7 @@ theorem step_limit_min (cfg : Cfg) (s : St) (r : TankRun.Row) (hrow : (step cfg 
   set B : Int := s.simTime - t1 with hB
   have hdt1 : (((t1 - s.prevTime : Int)) : Rat) = dt0 - (B : Rat) := by rw [hdt0, hB]; push_cast; ring
   have hpre_eq : preResult cfg s = presolve cfg.tracked false (preCheck cfg s).1 s.links s.simTime := by
-    unfold preResult; rw [hfirst]
+    unfold preResult preResultR; simp [hnr, hfirst]
   set hT := updateHead cfg.pi t p p q dt0 with hhT
   have hA : 0 < area cfg.pi t := by
     unfold area
@@ -728,7 +728,7 @@ theorem step_limit_min (cfg : Cfg) (s : St) (r : TankRun.Row) (hrow : (step cfg 
     have hgt : θ < hT := not_holds_le (by simpa using hhold)
     have hB0 : 0 ≤ B := by
       have := presolve_time_le_t cfg.tracked s.first (preCheck cfg s).1 s.links s.simTime hback
-      rw [hB, ht1]; unfold preResult; omega
+      rw [hB, ht1]; unfold preResult preResultR; simp only [hnr, List.isEmpty_nil, if_true]; omega
     have hBr : (0 : Rat) ≤ (B : Rat) := by exact_mod_cast hB0
     have hmono : hT ≤ updateHead cfg.pi t p p q (dt0 - (B : Rat)) := by
       rw [hhT]
@@ -757,7 +757,7 @@ is one whose closing the tracker sees (`closes_of_open_nonvalve`: an open tracke
 `_internal_status` closes; the due backtracks are non-negative.  Then the head saved by this step is below
 `max_head + q/A` — less than one second of flow above the maximum. -/
 theorem step_limit_max (cfg : Cfg) (s : St) (r : TankRun.Row) (hrow : (step cfg s).rows = r :: s.rows)
-    (hfirst : s.first = false) (i j k : Nat) (t : Tank) (rc : TankRun.RCtl)
+    (hfirst : s.first = false) (hnr : cfg.rules = []) (i j k : Nat) (t : Tank) (rc : TankRun.RCtl)
     (ht : cfg.tanks[i]? = some t) (hcyl : t.curve = none) (hpi : 0 < cfg.pi) (hd : t.diam ≠ 0)
     (hrc : cfg.ctls[j]? = some rc) (hpre : rc.pre = true)
     (hcond : rc.cond = TankRun.Cond.level i ⟨.head, .ge, t.maxLevel + t.elev⟩) (hact : rc.ctl.act = ⟨k, .internal, 0⟩)
@@ -795,7 +795,7 @@ theorem step_limit_max (cfg : Cfg) (s : St) (r : TankRun.Row) (hrow : (step cfg 
   set B : Int := s.simTime - t1 with hB
   have hdt1 : (((t1 - s.prevTime : Int)) : Rat) = dt0 - (B : Rat) := by rw [hdt0, hB]; push_cast; ring
   have hpre_eq : preResult cfg s = presolve cfg.tracked false (preCheck cfg s).1 s.links s.simTime := by
-    unfold preResult; rw [hfirst]
+    unfold preResult preResultR; simp [hnr, hfirst]
   set hT := updateHead cfg.pi t p p q dt0 with hhT
   have hA : 0 < area cfg.pi t := by
     unfold area
@@ -836,7 +836,7 @@ theorem step_limit_max (cfg : Cfg) (s : St) (r : TankRun.Row) (hrow : (step cfg 
     have hgt : hT < θ := not_holds_ge (by simpa using hhold)
     have hB0 : 0 ≤ B := by
       have := presolve_time_le_t cfg.tracked s.first (preCheck cfg s).1 s.links s.simTime hback
-      rw [hB, ht1]; unfold preResult; omega
+      rw [hB, ht1]; unfold preResult preResultR; simp only [hnr, List.isEmpty_nil, if_true]; omega
     have hBr : (0 : Rat) ≤ (B : Rat) := by exact_mod_cast hB0
     have hmono : updateHead cfg.pi t p p q (dt0 - (B : Rat)) ≤ hT := by
       rw [hhT]
@@ -898,6 +898,7 @@ structure MinSetup (cfg : Cfg) (i j k : Nat) (t : Tank) (rc : TankRun.RCtl) : Pr
   hcyl : t.curve = none
   hpi : 0 < cfg.pi
   hd : t.diam ≠ 0
+  hnr : cfg.rules = []
   hrc : cfg.ctls[j]? = some rc
   hpre : rc.pre = true
   hpost : rc.post = true
@@ -961,7 +962,7 @@ theorem limits_hold_along_run_min (cfg : Cfg) (links : Links) (heads lasts : Lis
               have := hflow p hp (by simpa using hc)
               linarith
             obtain ⟨hcl, hk⟩ := hopen hneg
-            obtain ⟨h2, e2, hlt⟩ := step_limit_min cfg s r e hf i j k t rc S.ht S.hcyl S.hpi S.hd S.hrc S.hpre S.hcond S.hact
+            obtain ⟨h2, e2, hlt⟩ := step_limit_min cfg s r e hf S.hnr i j k t rc S.ht S.hcyl S.hpi S.hd S.hrc S.hpre S.hcond S.hact
               p p q dem hp hhp hdem hq hneg hl hnot hcl hk S.hint hbacks
             rw [hhd] at e2; cases e2
             have : -(Q / A) ≤ q / A := by rw [← neg_div]; exact div_le_div_of_nonneg_right hQb (le_of_lt hA)
@@ -1029,6 +1030,7 @@ structure MaxSetup (cfg : Cfg) (i j k : Nat) (t : Tank) (rc : TankRun.RCtl) : Pr
   hcyl : t.curve = none
   hpi : 0 < cfg.pi
   hd : t.diam ≠ 0
+  hnr : cfg.rules = []
   hrc : cfg.ctls[j]? = some rc
   hpre : rc.pre = true
   hpost : rc.post = true
@@ -1092,7 +1094,7 @@ theorem limits_hold_along_run_max (cfg : Cfg) (links : Links) (heads lasts : Lis
               have := hflow p hp (by simpa using hc)
               linarith
             obtain ⟨hcl, hk⟩ := hopen hneg
-            obtain ⟨h2, e2, hlt⟩ := step_limit_max cfg s r e hf i j k t rc S.ht S.hcyl S.hpi S.hd S.hrc S.hpre S.hcond S.hact
+            obtain ⟨h2, e2, hlt⟩ := step_limit_max cfg s r e hf S.hnr i j k t rc S.ht S.hcyl S.hpi S.hd S.hrc S.hpre S.hcond S.hact
               p p q dem hp hhp hdem hq hneg hl hnot hcl hk S.hint hbacks
             rw [hhd] at e2; cases e2
             have : q / A ≤ Q / A := div_le_div_of_nonneg_right hQb (le_of_lt hA)
@@ -1155,6 +1157,14 @@ theorem limits_hold_along_run_max (cfg : Cfg) (links : Links) (heads lasts : Lis
   exact ⟨h, by simpa [init] using hh, hb⟩
 
 end RunLimits
+
+/-- leaks: `Sol.demand` / the reported demand is NET of the leak (`tankDemand`).  With every link at the tank closed (zero link
+flow) an active leak still gives a negative demand, so `Good.dem`'s Hflow clause is FALSE for a leaking tank at its minimum: a
+leaking tank may legitimately drain below `min_level` and `limits_hold_along_run_min` does not (and must not) apply to it; the
+integral statements (`level_trace_is_integral_run`, `cylinder_euler_exact_leak`) do.  The overflow flag does not occur in the
+model at all (`tankControls` has no such input): the limit theorems hold for overflow tanks exactly as for the others. -/
+theorem leaking_tank_discharges_with_closed_links (leak : Rat) (h : 0 < leak) : tankDemand 0 0 leak < 0 := by
+  unfold tankDemand; linarith
 
 /-- `limits_hold_along_run` (min side, levels of one cylindrical tank along consecutive reported rows, oldest first as
 `(time, level, demand)`): if
